@@ -194,3 +194,28 @@ class OtherStr(str):
 
 
 OTHER = OtherStr('zz-unknown-label')
+
+
+@contextlib.contextmanager
+def exact_unit_tables(h):
+    """In symbolic mode the values of the running code's unit tables are replaced *in place* by the exact rationals
+    of their decimal spelling (133.322 -> 66661/500), so that factors the library computes from two table entries
+    before touching a value (unit_list[a] / unit_list[b]) are exact instead of being rounded to a double.  The
+    tables themselves are read from the working tree at run time; nothing is cached."""
+    import fractions
+    from pygaps.units import converter_unit as cu
+    tabs = [cu._MOLAR_UNITS, cu._MASS_UNITS, cu._VOLUME_UNITS, cu._PRESSURE_UNITS]
+    if h is None or not h.sym:
+        yield
+        return
+    saved = [dict(t) for t in tabs]
+    try:
+        for t in tabs:
+            for k, v in list(t.items()):
+                if isinstance(v, (int, float)) and not isinstance(v, bool):
+                    t[k] = fractions.Fraction(repr(v)) if isinstance(v, float) else fractions.Fraction(v)
+        yield
+    finally:
+        for t, s in zip(tabs, saved):
+            t.clear()
+            t.update(s)
